@@ -194,10 +194,12 @@ extern "C" {
 	((u32*)(block))[3] = u32Rev(((u32*)(block))[3])\
 
 #define beltBlockIncU32(block)\
-	if ((((u32*)(block))[0] += 1) == 0 &&\
-		(((u32*)(block))[1] += 1) == 0 &&\
-		(((u32*)(block))[2] += 1) == 0)\
-		((u32*)(block))[3] += 1\
+	((u32*)(block))[0] += 1,\
+	((u32*)(block))[1] += (u32)(((u32*)(block))[0] == 0),\
+	((u32*)(block))[2] += (u32)((((u32*)(block))[0] |\
+		((u32*)(block))[1]) == 0),\
+	((u32*)(block))[3] += (u32)((((u32*)(block))[0] |\
+		((u32*)(block))[1] | ((u32*)(block))[2]) == 0)\
 
 /*
 *******************************************************************************
